@@ -381,6 +381,8 @@ def _run(case, obs, lay):
         obs.cls("internal-override")
     if params and any(k in car_or_base_names for k in params):
         obs.cls("params-override")
+    if params and not any(case["cars"][c]["vars"] or case["cars"][c]["vars_section"] for c in case["selection"]):
+        obs.cls("params-and-no-car-has-a-variables-section")
     if any(not case["cars"][c]["bases"] for c in case["selection"]) and base_order:
         obs.cls("mixin-without-base")
     if len(set(case["selection"])) >= 2:
